@@ -17,7 +17,8 @@ TRUSTED = [
     'Gen/Sessions.v regenerated on every run by tools/gen/sessions.py (python ast, fail-closed): a private lexer clone per '
     'evaluation on per-instance lexer / LR parser objects, release_tracebacks() in the finally clause clearing every error '
     'constant, self.debug only guards traceback.print_exc(), no global statement / cache decorator / mutable default in the '
-    'package, per-instance binding dicts',
+    'package, per-instance binding dicts, no in-place mutation of a parameter or of a plain alias of one (method calls, item / slice '
+    'assignment) in any function of the package',
     'modelled, not verified: the Python object graph (aliasing of host lists, reference cycles, the garbage collector) - the '
     'model has immutable values, so non-mutation of host values and retention are decided by the oracle of this check; ply '
     'LRParser re-initialises its stacks at every parse (ply 3.11, third-party, observed through the histories)',
